@@ -331,3 +331,5 @@ def shrink(c):
             d[k] = nv
             out.append(d)
     return out
+
+K1_DEPENDS = ['wire_k1']   # source/runtime tables this property rests on (tools/vlib/runner.py)
